@@ -38,6 +38,9 @@ func genC15(t *rapid.T) RaceCase {
 			}
 			script = append(script, op)
 		}
+		if g == 0 && rapid.IntRange(0, 7).Draw(t, "bigTx") == 0 {
+			script = append(script, Op{K: "bigtx", N: rapid.SampledFrom([]int{1001, 2500, 4000}).Draw(t, "bigN"), Len: rapid.IntRange(0, 1).Draw(t, "bigEnd"), Key: rapid.IntRange(0, 3).Draw(t, "bigKey")})
+		}
 		rc.Workers = append(rc.Workers, script)
 	}
 	return rc
